@@ -4,7 +4,8 @@ programs x schedules, exhaustive within the stated bounds, no sampling.
 
 Programs: ONE block of exactly n ops, for every n = 1..N, over a ground-truth alphabet fixed HERE (KIND table below): pure
 (test.pureop), read-only (test.op_with_memread), write (test.op_with_memwrite), unknown effects (test.op);
-0..2 operands drawn from all earlier values, 0..1 results.  Two hosts:
+0..2 operands drawn from all earlier values, 0..1 results; separate "multi" plans add pure / read-only ops with 2 or 3
+results (every subset of the results made live through exit-state / returned value sets and through users).  Two hosts:
   * "mod"  : builtin.module body; a chosen subset of values is marked "returned from a public function" the way
              the analysis defines that boundary: LivenessAnalysis.set_to_exit_state(lattice), called by a
              harness-side DataFlowAnalysis (the Seeder) loaded into the same solver, either from its initialize
@@ -63,8 +64,10 @@ MODE_SETS = {"all": MODES_SEED, "core": (("D", "Si", "L"), ("D", "L", "Sw"), ("L
 
 
 # ---------------------------------------------------------------- programs
-def programs(n_ops: int, full: bool, variant: int = 0):
+def programs(n_ops: int, full: bool, variant: int = 0, multi: bool = False):
     """every op list of exactly n_ops ops.  op = (kind, operand value indices, n_results).
+    multi=True: removable (pure / read-only) ops with operands may also have 2 or 3 results; ONLY the programs that
+                contain at least one such multi-result op are produced (the others belong to the multi=False plans).
     full=True : all four kinds at every position, sources (no operands, one result) pure or unknown,
                 ordered operand pairs (duplicates included).
     full=False: reduced alphabet — at block position p one removable and one non-removable kind, alternating
@@ -76,20 +79,21 @@ def programs(n_ops: int, full: bool, variant: int = 0):
         i = (p + variant) % 2
         return (REMOVABLE_KINDS[i], KEEP_KINDS[i]), ("pure",)
 
-    def rec(prefix: tuple, v: int):
+    def rec(prefix: tuple, v: int, has_multi: bool):
         p = len(prefix)
         if p == n_ops:
-            yield prefix, v
+            if has_multi == multi:
+                yield prefix, v
             return
         kinds, src = kinds_at(p)
         for k in src:
-            yield from rec(prefix + ((k, (), 1),), v + 1)
+            yield from rec(prefix + ((k, (), 1),), v + 1, has_multi)
         opnds = [(i,) for i in range(v)] + [(i, j) for i in range(v) for j in range(v) if full or i <= j]
         for k in kinds:
             for o in opnds:
-                for r in (0, 1):
-                    yield from rec(prefix + ((k, o, r),), v + r)
-    yield from rec((), 0)
+                for r in ((0, 1, 2, 3) if multi and KIND[k][1] else (0, 1)):
+                    yield from rec(prefix + ((k, o, r),), v + r, has_multi or r > 1)
+    yield from rec((), 0, False)
 
 
 def live_sets(v: int, max_size: int):
@@ -266,7 +270,15 @@ class ChoiceQueue:
 
 
 def _seeder_class():
+    from dataclasses import dataclass
+
     from xdsl.analysis.dataflow import DataFlowAnalysis, ProgramPoint
+
+    @dataclass(frozen=True)
+    class ValuePoint(ProgramPoint):
+        """harness-only work item tag: 'mark result #index of the op at this point' (results of one multi-result
+        op must give DISTINCT work items)"""
+        index: int = 0
 
     class Seeder(DataFlowAnalysis):
         """the 'returned from a public function' boundary: calls LivenessAnalysis.set_to_exit_state"""
@@ -283,7 +295,7 @@ def _seeder_class():
         def initialize(self, op) -> None:
             for v in self.values:
                 if self.via_worklist:
-                    pt = ProgramPoint.before(v.owner)
+                    pt = ValuePoint(v.owner, v.index)
                     self.by_point[pt] = v
                     self.queue.new_batch()
                     self.solver.enqueue((pt, self))
@@ -319,7 +331,7 @@ def run_once(host: str, ops, live, mode, ch: Chooser):
         point, analysis = item
         a = next((i for i, x in enumerate(solver._analyses) if x is analysis), len(solver._analyses))
         ent = getattr(point, "entity", None)
-        return (a, pos.get(id(ent), len(body) + 1), type(ent).__name__ if id(ent) not in pos else "")
+        return (a, pos.get(id(ent), len(body) + 1), getattr(point, "index", 0), type(ent).__name__ if id(ent) not in pos else "")
 
     q = ChoiceQueue(ch, keyfn, STEP_CAP)
     solver._worklist = q
@@ -443,10 +455,10 @@ def explore_case(st: Stats, host, ops, live, modes, bound, cap) -> int:
 
 def _shard(arg) -> Stats:
     plan, shard, nshards, seed = arg
-    host, n_ops, full, variant, max_live, bound, cap, mkey, skip_sources_only = plan
+    host, n_ops, full, variant, max_live, bound, cap, mkey, skip_sources_only, multi = plan
     st = Stats()
     idx = 0
-    for ops, v in programs(n_ops, full, variant):
+    for ops, v in programs(n_ops, full, variant, multi):
         if skip_sources_only and all(not o[1] for o in ops):
             continue                       # identical in both kind variants: counted with variant 0
         for live in live_sets(v, max_live):
@@ -469,22 +481,34 @@ def _shard(arg) -> Stats:
 def plans(quick: bool):
     Q, T = 20000, 400000
     if quick:
-        return [
+        ps = [
             ("mod", 1, True, 0, 1, None, Q, "all", False), ("mod", 2, True, 0, 2, None, Q, "all", False),
             ("mod", 3, True, 0, 3, 2, Q, "all", False),
             ("func", 1, True, 0, 1, None, Q, "all", False), ("func", 2, True, 0, 2, None, Q, "all", False),
             ("func", 3, True, 0, 2, 2, Q, "all", False),
             ("mod", 4, False, 0, 1, 1, Q, "core", False), ("func", 4, False, 1, 1, 1, Q, "all", False),
         ]
-    return [
-        ("mod", 1, True, 0, 1, None, T, "all", False), ("mod", 2, True, 0, 2, None, T, "all", False),
-        ("mod", 3, True, 0, 3, None, T, "all", False),
-        ("func", 1, True, 0, 1, None, T, "all", False), ("func", 2, True, 0, 2, None, T, "all", False),
-        ("func", 3, True, 0, 2, None, T, "all", False),
-        ("mod", 4, False, 0, 1, None, T, "all", False), ("mod", 4, False, 1, 4, 2, T, "all", True),
-        ("func", 4, False, 0, 2, None, T, "all", False),
-        ("func", 5, False, 1, 1, 1, T, "all", False),
-    ]
+        multi = [      # programs with at least one pure / read-only op that has 2 or 3 results
+            ("mod", 2, True, 0, 3, None, Q, "all", False), ("func", 2, True, 0, 3, None, Q, "all", False),
+            ("mod", 3, False, 0, 2, 1, Q, "all", False), ("func", 3, False, 0, 2, 2, Q, "all", False),
+        ]
+    else:
+        ps = [
+            ("mod", 1, True, 0, 1, None, T, "all", False), ("mod", 2, True, 0, 2, None, T, "all", False),
+            ("mod", 3, True, 0, 3, None, T, "all", False),
+            ("func", 1, True, 0, 1, None, T, "all", False), ("func", 2, True, 0, 2, None, T, "all", False),
+            ("func", 3, True, 0, 2, None, T, "all", False),
+            ("mod", 4, False, 0, 1, None, T, "all", False), ("mod", 4, False, 1, 4, 2, T, "all", True),
+            ("func", 4, False, 0, 2, None, T, "all", False),
+            ("func", 5, False, 1, 1, 1, T, "all", False),
+        ]
+        multi = [
+            ("mod", 2, True, 0, 3, None, T, "all", False), ("func", 2, True, 0, 3, None, T, "all", False),
+            ("mod", 3, False, 0, 3, 2, T, "all", False), ("mod", 3, False, 1, 3, 2, T, "all", False),
+            ("func", 3, False, 0, 3, None, T, "all", False), ("func", 3, False, 1, 3, None, T, "all", False),
+            ("mod", 4, False, 0, 0, 2, T, "all", False),
+        ]
+    return [p + (False,) for p in ps] + [p + (True,) for p in multi]
 
 
 def run(ctx):
@@ -492,18 +516,19 @@ def run(ctx):
     nshards = 96
     tasks = [(p, i, nshards if p[1] >= 3 else 4, ctx.seed) for p in ps for i in range(nshards if p[1] >= 3 else 4)]
     # big plans first so the pool stays busy
-    tasks.sort(key=lambda t: -t[0][1])
+    tasks.sort(key=lambda t: (-t[0][1], not t[0][9]))
     done = {(t[0], t[1]): st for t, st in pmap(_shard, tasks)}
     for p in ps:                                   # merge in plan order (smallest programs first), shard order:
         for i in range(nshards if p[1] >= 3 else 4):   # the witness kept per signature is then deterministic and small
             ctx.merge(done[(p, i)])
     ctx.bounds = {"plans": [{"host": p[0], "ops": p[1], "alphabet": "full(4 kinds, ordered operand pairs)" if p[2] else f"reduced(variant {p[3]})",
+                             "results_per_op": "0-1, removable ops also 2-3 (programs with at least one such op)" if p[9] else "0-1",
                              "max_live_set": p[4], "deviation_bound": "unbounded" if p[5] is None else p[5],
                              "max_executions_per_case_mode": p[6],
                              "modes_with_exit_state_values": [">".join(m) for m in MODE_SETS[p[7]]] if p[0] == "mod" else []} for p in ps],
                   "modes": [">".join(m) for m in MODES_NOSEED + MODES_SEED], "step_cap": STEP_CAP}
     ctx.rule = ("every one-block program of exactly N ops over {pure, read, write, unknown} x operand wirings (0-2 operands from all earlier "
-                "values) x 0-1 results, x every returned/exit-state value set up to the stated size, x every analysis load order (mode), x every "
+                "values) x 0-1 results (multi-result plans: pure / read-only ops also with 2 or 3 results), x every returned/exit-state value set up to the stated size, x every analysis load order (mode), x every "
                 "worklist pop order with at most k deviations from the solver's FIFO order; states = (program, live set) cases, transitions = "
                 "worklist pops of the real solver, executions = complete solver runs, evaluations = per-value comparisons with the reference; "
                 "non-trivial = case with more than one explored schedule in some mode AND a value that is live only through a live result of a "
